@@ -551,6 +551,15 @@ def async_table():
     P([decl("f", async_([brk(), ret(I(1))])), ret(await_(var("f")))], ["error", "break-outside-loop-in-block"])
     P([decl("f", async_([decl("s", I(3))])), ret(await_(var("f")))], ["block-without-return"])
     P([decl("f", async_([ret(arr([I(1), obj([("a", lit(vfloat(2.5)))]), lit(vnull())]))])), ret(await_(var("f")))], ["structured-value"])
+    # the request body is the route's; a block works on the values it saw when it was started and changes nothing the
+    # route sees (numbers of a JSON body are floats)
+    IN = [("input", vobj([("n", vfloat(1.0)), ("tags", varr([vstr("a")])), ("p", vobj([("q", vfloat(2.0))]))]))]
+    Fl = lambda x: lit(vfloat(x))
+    out.append(prog("", [decl("f", async_([pset("input", ["n"], Fl(9.0)), ret(field(var("input"), "n"))])), decl("r", await_(var("f"))), ret(arr([var("r"), field(var("input"), "n")]))], IN, ["async", "request-body", "block-assigns-a-field"]))
+    out.append(prog("", [decl("f", async_([pset("input", [lit(vstr("k"))], Fl(5.0), dollar=False), ret(field(var("input"), "k"))])), decl("r", await_(var("f"))), ret(arr([var("r"), var("input")]))], IN, ["async", "request-body", "block-adds-a-key"]))
+    out.append(prog("", [decl("f", async_([pset("input", ["p", "q"], Fl(7.0)), ret(var("input"))])), pset("input", ["n"], Fl(3.0)), decl("r", await_(var("f"))), ret(arr([field(field(var("r"), "p"), "q"), field(var("r"), "n"), field(field(var("input"), "p"), "q"), field(var("input"), "n")]))], IN, ["async", "request-body", "both-sides-assign"]))
+    out.append(prog("", [decl("f", async_([pset("input", ["tags", lit(vint(0))], lit(vstr("z"))), ret(field(var("input"), "tags"))])), decl("r", await_(var("f"))), ret(arr([var("r"), field(var("input"), "tags")]))], IN, ["async", "request-body", "block-assigns-an-element"]))
+    out.append(prog("", [decl("f", async_([ret(field(var("input"), "n"))])), pset("input", ["n"], Fl(4.0)), ret(arr([await_(var("f")), field(var("input"), "n")]))], IN, ["async", "request-body", "route-assigns-after-the-start"]))
     return out
 
 
